@@ -386,7 +386,8 @@ def _exec(M: Machine, prog: Program, single=False, trace=False):
                     raise ValueError("bad address")
                 push(raw[:32])
             elif m == "method":
-                sig = _unescape(im[0][1:-1]) if im[0].startswith('"') else None
+                # the reference assembler hashes the text between the quotes as it stands (no escape processing)
+                sig = im[0][1:-1].encode("utf-8") if im[0].startswith('"') and im[0].endswith('"') and len(im[0]) >= 2 else None
                 if sig is None:
                     raise ValueError("method needs a quoted signature")
                 push(hashlib.new("sha512_256", sig).digest()[:4])
